@@ -74,6 +74,29 @@ def type_section(rs_text):
     return bytes(out).hex()
 
 
+def rustc_errors(err):
+    """[(error line, site)] of a rustc diagnostic text: site = the source line the error points at (digits folded, blanks
+    squeezed, 70 characters) -- the generated code at the failing place is what identifies a defect, the error class alone
+    does not"""
+    lines = err.splitlines()
+    out = []
+    for i, l in enumerate(lines):
+        if not re.match(r"^error(\[E\d+\])?: ", l) or l.startswith("error: aborting") or "previous error" in l:
+            continue
+        if len(re.findall(r"error(\[E\d+\])?: ", l)) > 1:
+            continue          # head and tail of a long diagnostic text glued together in the middle of a line
+        site = ""
+        for m in lines[i + 1:i + 12]:
+            if m.startswith("error") or m.startswith("warning"):
+                break
+            mm = re.match(r"^\s*\d+ \| (.*)$", m)
+            if mm:
+                site = re.sub(r"\d+", "N", re.sub(r"\s+", " ", mm.group(1)).strip())[:70]
+                break
+        out.append((l, site))
+    return out
+
+
 def run(tier):
     t0 = time.time()
     wd = workdir(PID)
@@ -133,6 +156,12 @@ def run(tier):
         p = u["wit"]
         return os.path.basename(p) if "tests/codegen" in p else "gen:" + os.path.basename(os.path.dirname(p))
 
+    def scope_of(u):
+        """part of a violation's identity: the adversarial world or corpus file by name; TLC-generated worlds (whose numbering
+        differs between tiers) as `gen`"""
+        n = name_of(u)
+        return n[4:] if n.startswith("gen:adv-") else ("gen" if n.startswith("gen:") else n)
+
     def ctx_of(u, extra=None):
         c = {"name": name_of(u), "variant": u["variant"], "args": u["args"], "wit": open(u["wit"]).read() if os.path.isfile(u["wit"]) else u["wit"]}
         c.update(extra or {})
@@ -144,10 +173,13 @@ def run(tier):
         if r["rc"] != 0:
             failed.add(int(n))
             err = r.get("stderr_head", "") + r["stderr"]
-            first = next((l for l in err.splitlines() if l.startswith("error")), err[-200:])
-            msg = re.sub(r"`[^`]*`", "`_`", first)
-            out.violation(f"rustc:{re.sub(chr(92) + 'd+', 'N', msg)[:110]}", f"generated Rust for {name_of(u)} [{u['variant'] or 'default'}, edition {ed}] does not compile: {first[:300]}",
-                          ctx_of(u, {"stderr": err[:2500]}))
+            # every distinct error of the unit is a violation of its own (a listed finding must not hide a different error of the
+            # same unit), and the names inside the message stay in the key (only digits are folded): `found keyword `Self``
+            # and `found keyword `type`` are different defects
+            errs = rustc_errors(err)
+            for first, site in list(dict.fromkeys(errs)) or [(err[-200:], "")]:
+                out.violation(f"rustc:{scope_of(u)}[{u['variant'] or 'default'}]:{re.sub(chr(92) + 'd+', 'N', first)[:110]} @ {site}", f"generated Rust for {name_of(u)} [{u['variant'] or 'default'}, edition {ed}] does not compile: {first[:300]}",
+                              ctx_of(u, {"stderr": err[:2500]}))
         else:
             compiled += 1
     # component encoder on the declared surface + the embedded type section
